@@ -745,6 +745,7 @@ def Value.Permuted : Value → Value → Prop
   | .text s, .text s' => s = s'
   | .list l, .list l' => l ~ l'
   | .bool b, .bool b' => b = b'
+  | .null, .null => True
   | _, _ => False
 
 /-- same key, values reordered -/
@@ -770,6 +771,7 @@ def normField (f : Field) : Field := { key := f.key, value := normValue f.value 
 theorem normValue_eq_of_permuted {v w : Value} (h : v.Permuted w) : normValue v = normValue w := by
   cases v <;> cases w <;> simp only [Value.Permuted] at h
   · rw [h]
+  · rfl
   · simp only [normValue]; rw [isort_eq_of_perm lt8_strictTotal h]
   · rw [h]
 
@@ -795,6 +797,7 @@ theorem isort_singleton_iff (lt : Str → Str → Bool) (l : List Str) (v : Str)
 theorem toStr_normValue (v : Value) : (normValue v).toStr = v.toStr := by
   cases v with
   | text s => rfl
+  | null => rfl
   | bool b => rfl
   | list l =>
     simp only [normValue]
@@ -809,6 +812,7 @@ theorem toStr_normValue (v : Value) : (normValue v).toStr = v.toStr := by
 theorem codeVals_normValue (v : Value) : (normValue v).codeVals = v.codeVals := by
   cases v with
   | text s => rfl
+  | null => rfl
   | bool b => rfl
   | list l =>
     simp only [normValue, Value.codeVals, Value.wire]
@@ -965,6 +969,7 @@ def Value.strings : Value → List Str
   | .text s => [s]
   | .list l => l
   | .bool _ => []
+  | .null => []
 
 /-- every string component of an info set: category/type/lang/name of the identities, the features,
 the keys and values of the form -/
@@ -1009,6 +1014,7 @@ theorem toStr_noChar (c : Char) (hc : c ∉ "true".toList ∧ c ∉ "false".toLi
     (h : ∀ s ∈ v.strings, c ∉ s) : c ∉ v.toStr := by
   cases v with
   | text s => exact h s (by simp [Value.strings])
+  | null => simp [Value.toStr]
   | bool b =>
     cases b
     · exact hc.2
@@ -1024,10 +1030,8 @@ theorem valTokens_noChar (c : Char) (hc : c ≠ '1' ∧ c ≠ '0') (v : Value)
   intro t ht
   simp only [valTokens, Value.codeVals, mem_isort] at ht
   cases v with
-  | text s =>
-    cases s with
-    | nil => simp [Value.wire] at ht
-    | cons a r => simp only [Value.wire, mem_singleton] at ht; subst ht; exact h _ (by simp [Value.strings])
+  | text s => simp only [Value.wire, mem_singleton] at ht; subst ht; exact h _ (by simp [Value.strings])
+  | null => simp [Value.wire] at ht
   | bool b =>
     cases b <;> simp only [Value.wire, mem_singleton] at ht <;> subst ht <;> simp [hc.1, hc.2]
   | list l => exact h t ht
@@ -1211,10 +1215,8 @@ theorem fieldStr_agree (f : Field) : fieldStrCode f = fieldStrSpec f := rfl
 theorem toStr_eq_wire {v : Value} (hb : ∀ b, v ≠ .bool b) {w : Str} (hw : v.wire = [w]) : v.toStr = v.wire.flatten := by
   cases v with
   | bool b => exact absurd rfl (hb b)
-  | text s =>
-    cases s with
-    | nil => simp [Value.wire] at hw
-    | cons a r => simp [Value.toStr, Value.wire]
+  | null => simp [Value.wire] at hw
+  | text s => simp [Value.toStr, Value.wire]
   | list l => simp only [Value.wire] at hw; subst hw; simp [Value.toStr, Value.wire]
 
 /-- the form part: QMap with last-wins/`toString` against the XEP's steps 6–7 -/
